@@ -569,7 +569,7 @@ def split_ret(sig):
 
 
 def extract_fn(repo, rel, qualname, contract_lines, loops, ats, rewrites, stub=False, ret_name='r',
-               impl_header=None, info=None, props=None, emit_as=None, attrs=(), desugar=False):
+               impl_header=None, info=None, props=None, emit_as=None, attrs=(), desugar=False, expand=None, fnptr_opaque=False):
     raw, src = repo.src(rel)
     if '::' in qualname and impl_header is None:
         impl_header, name = qualname.rsplit('::', 1)
@@ -629,6 +629,14 @@ def extract_fn(repo, rel, qualname, contract_lines, loops, ats, rewrites, stub=F
             info.append(rec)
         return '\n'.join(out) + '\n'
 
+    expansions = []
+    for (mrel_, mname_) in (expand or []):
+        body, prov_ = expand_invocations(repo, body, mrel_, mname_)
+        expansions.append(prov_)
+    n_cast = 0
+    if fnptr_opaque:
+        cast_ = re.compile(r'(\$?[A-Za-z_][A-Za-z0-9_]*)\s+as\s+' + FNPTR_TY.pattern.replace('\\b', '', 1))
+        body, n_cast = cast_.subn(lambda m_: 'verif_of_' + fnptr_handle_name(FNPTR_TY.search(m_.group(0))) + '(' + m_.group(1) + ')', body)
     body, nlog = strip_logs(body)
     body, nfmt = replace_format(body)
     body = strip_attrs(body)
@@ -703,6 +711,10 @@ def extract_fn(repo, rel, qualname, contract_lines, loops, ats, rewrites, stub=F
     body = '{ /*@body*/' + body[1:]
     out.append(body)
     rec['rules'] = {'R1_log_statements_dropped': nlog, 'R2_format_replaced': nfmt, 'rewrites': applied}
+    if expansions:
+        rec['rules']['R7c_macro_invocations_expanded'] = expansions
+    if n_cast:
+        rec['rules']['R16_fnptr_casts_as_handle_constructors'] = n_cast
     if desugar:
         rec['rules']['desugared'] = desugared
         rec['rules']['R11_fnptr_params_as_impl_fn'] = n_fnptr
@@ -1073,6 +1085,61 @@ def manual_loop(body, ki, oi, itname, clauses, qualname):
 
 
 # ----------------------------------------------------------------------------- R7b: macro-generated functions
+def macro_single_arm(repo, macro_rel, macro_name, rule='R7c'):
+    """(params, body, provenance) of a macro_rules! with ONE arm whose parameters are single fragments (no repetitions)."""
+    _, msrc = repo.src(macro_rel)
+    dm = re.search(r'macro_rules!\s+' + re.escape(macro_name) + r'\s*\{', msrc)
+    if not dm:
+        raise ExtractError("%s: macro_rules! %s not found in %s" % (rule, macro_name, macro_rel))
+    mo = msrc.index('{', dm.start())
+    mc = match_close(msrc, mo, '{', '}')
+    arm = msrc[mo + 1:mc]
+    po = arm.index('(')
+    pc = match_close(arm, po, '(', ')')
+    if '$(' in arm:
+        raise ExtractError("%s: macro %s uses repetitions - outside the supported subset" % (rule, macro_name))
+    params = re.findall(r'\$([A-Za-z_][A-Za-z0-9_]*)\s*:\s*([a-z]+)', arm[po + 1:pc])
+    bo = arm.index('{', arm.index('=>', pc))
+    bc = match_close(arm, bo, '{', '}')
+    if re.search(r'\(\s*\$', arm[bc + 1:]):
+        raise ExtractError("%s: macro %s has more than one arm" % (rule, macro_name))
+    prov = {'file': macro_rel, 'lines': [line_of(msrc, dm.start()), line_of(msrc, mc)], 'sha256': hashlib.sha256(msrc[dm.start():mc + 1].encode()).hexdigest()}
+    return params, strip_comments(arm[bo + 1:bc]), prov
+
+
+def expand_invocations(repo, body, macro_rel, macro_name):
+    """R7c: every invocation `macro_name!(ARGS..)` inside a function body is replaced by `{ BODY }` with the fragments substituted textually
+    (the transcription rule of the Rust reference for non-repeating metavariables; hygiene is not modelled - the expansion is compiled by
+    rustc inside the unit, so a capture would be a compile error or change the obligations, never pass silently). Returns (body, provenance)."""
+    params, mbody, prov = macro_single_arm(repo, macro_rel, macro_name)
+    count = 0
+    pat = re.compile(r'\b' + re.escape(macro_name) + r'!\s*\(')
+    while True:
+        im = pat.search(body)
+        if not im:
+            break
+        o = im.end() - 1
+        c = match_close(body, o, '(', ')')
+        args = [a.strip() for a in _split_args(body[o + 1:c])]
+        if len(args) != len(params):
+            raise ExtractError("R7c: %s! takes %d fragments, invocation has %d arguments" % (macro_name, len(params), len(args)))
+        exp = mbody
+        for (pname, frag), val in sorted(zip(params, args), key=lambda t: -len(t[0][0])):
+            exp = re.sub(r'\$' + re.escape(pname) + r'\b', lambda _m, v=val: v, exp)
+        if '$' in exp:
+            raise ExtractError("R7c: unsubstituted metavariable left in the expansion of %s!" % macro_name)
+        k = c + 1
+        while k < len(body) and body[k] in ' \t':
+            k += 1
+        if k < len(body) and body[k] == ';':
+            k += 1
+        body = body[:im.start()] + '{' + exp + '}' + body[k:]
+        count += 1
+    prov['invocations'] = count
+    prov['macro'] = macro_name
+    return body, prov
+
+
 def expand_macro_fn(repo, rel, fn_name, macro_rel, macro_name):
     """R7b: a function generated by `macro_name!(fn_name, ARGS..);` in `rel`, where `macro_name` is a macro_rules! with ONE arm whose
     parameters are single fragments (`$x: ident`, `$y: expr`; no repetitions), is expanded by textual substitution of the fragments
@@ -1295,7 +1362,8 @@ def process_template(template_path, repo_root, include_dirs=(), restrict=()):
             emit(extract_fn(repo, rel, qual, contract, loops, ats, rewrites, stub=('stub' in flags),
                             ret_name=kv.get('ret', 'r'), impl_header=impl_header, info=items,
                             props=kv.get('props', '').split(',') if kv.get('props') else [], emit_as=kv.get('as'), attrs=fn_attrs,
-                            desugar=('desugar' in flags)))
+                            desugar=('desugar' in flags), fnptr_opaque=('fnptr_opaque' in flags),
+                            expand=[tuple(x.rsplit(':', 1)) for x in kv['expand'].split('+')] if kv.get('expand') else None))
             if macro_prov is not None:
                 items[-1]['R7b_macro_expansion'] = macro_prov
             if kv.get('as'):
